@@ -235,6 +235,7 @@ def run(chk, facts):
     rule_r24(chk, facts)
     rule_r25(chk, facts)
     rule_r26(chk, facts)
+    rule_r27(chk, facts)
 
 
 def rule_r26(chk, facts, rule='C03-R26'):
@@ -272,4 +273,54 @@ def rule_r26(chk, facts, rule='C03-R26'):
                    'behind a size check of the buffer' if ok else
                    '%s(code buffer, ..., %s) is reached on a path (%s) without SetMaxCodeLen() and without a comparison with '
                    'MaxCodeLen: the length can exceed the 256 bytes the buffer starts with' % (callee_name(c), show(L)[:30], ' '.join(w[-4:])))
+    return n
+
+
+def rule_r27(chk, facts, rule='C03-R27'):
+    chk.rule(rule, 'a record that contains a value with an owned string buffer (symbol table entry) may be duplicated by '
+             'structure assignment only if the copy\'s string pointer is given a fresh allocation afterwards on every path '
+             'on which the value is a string - copying "into" the duplicate reuses the shared buffer, and both records free it',
+             min_instances=1)
+    P = facts.program('asl')
+    n = 0
+    for f in P.all_funcs():
+        if f.entry is None or f.unit.name != 'asmpars.c':
+            continue
+        for b, i, ln, m in f.nodes():
+            if not (is_assign(m) and m[1] == '='):
+                continue
+            l, r = nocast(m[2]), nocast(m[3])
+            if not (l[0] == 'u' and l[1] == '*' and r[0] == 'u' and r[1] == '*'):
+                continue
+            dst = nocast(l[2])
+            if dst[0] not in ('l', 'p'):
+                continue
+            t = (f.locals.get(dst[1]) or {}).get('t', '') if dst[0] == 'l' else ''
+            if 'SymbolEntry' not in t:
+                continue
+            n += 1
+
+            def fresh(ex, dst=dst):
+                for x in walk_own(ex):
+                    if is_assign(x) and x[1] == '=':
+                        tl = nocast(x[2])
+                        if tl[0] == 'm' and tl[2].endswith('.p_str') and any(isinstance(y, tuple) and y == dst for y in walk(tl)):
+                            rr = nocast(x[3])
+                            if rr[0] == 'call' and callee_name(rr) in ('malloc', 'calloc', 'as_strdup', 'strdup'):
+                                return True
+                return False
+
+            def not_string(s_, t_, lab):
+                # paths on which the value was found not to be a string need no buffer
+                if lab is not None and lab[0] in ('T', 'F'):
+                    for a in atoms(lab[1], lab[0] == 'T'):
+                        if a[0] == 'cmp' and a[1] == '!=' and isinstance(a[2], tuple) and a[2] and a[2][0] == 'm' and a[2][2].endswith('.Typ'):
+                            return False
+                return True
+            ok, w = f.must_pass(b, i, fresh, edge_ok=not_string)
+            chk.ob(rule, '%s:%s:*%s=*%s' % (f.unit.name, f.name, dst[1], show(nocast(r[2]))), ok, f.loc(ln),
+                   'string pointer re-allocated for the copy' if ok else
+                   'after the structure copy the duplicate shares the string buffer of the original and no fresh buffer is '
+                   'allocated for it (path %s): both entries free the same block when the symbol table is cleared '
+                   '(GLOBAL name / name EQU "text" inside a SECTION)' % ' '.join(w[-4:]))
     return n
